@@ -152,3 +152,74 @@ class Templates:
 
 def extract_all(prog: Program, tier="quick") -> Templates:
     return Templates(prog, tier)
+
+
+def _param(name):
+    return TNode("$Param", {"name": Cst(name)}, "param")
+
+
+def helper_entries(T: Templates):
+    """Templates of the helper builders in oneliner/utils.py and the preset."""
+    prog = T.prog
+    ut = prog.modules.get("oneliner.utils")
+    if ut is None:
+        raise AnalysisError("anchor module oneliner.utils vanished")
+    out = {}
+    # wrappers: functions taking a list of nodes and returning one expr
+    for name, fi in ut.functions.items():
+        a = fi.node.args
+        params = [p.arg for p in a.args]
+        if params == ["nodes"]:
+            def mk(it, _fi=fi):
+                nodes = PList([_param("nodes[0]"), Rep([_param("nodes[i]")], "nodes[1:]")])
+                return [nodes], {}, None
+            out[f"wrapper:{name}"] = T.function(fi, mk, key=f"helper:{name}")
+        elif len(params) == 1 and params[0] in ("_slice", "index", "slice_node", "s"):
+            kinds = ["Slice"] if "slice" in params[0] else list(asdl.EXPR_KINDS)
+            def mk(it, _k=kinds):
+                parent = UNode(["Subscript"])
+                u = UNode(_k, parent, "slice", None)
+                return [u], {}, None
+            out[f"slice:{name}"] = T.function(fi, mk, key=f"helper:{name}")
+    return out
+
+
+def expr_wrapper_paths(T: Templates):
+    """The closure returned by get_expr_wrapper(configs), applied to lists of length 0, 1, many."""
+    prog = T.prog
+    ut = prog.modules["oneliner.utils"]
+    fi = ut.functions.get("get_expr_wrapper")
+    if fi is None:
+        raise AnalysisError("anchor oneliner.utils:get_expr_wrapper vanished")
+    results = []
+    for n in ("0", "1", "many"):
+        def mk(it, _n=n):
+            it.raw_wrapper = True
+            return [Unknown("configs")], {}, None
+
+        def run_one(n=n):
+            from .interp import Interp, PathResult, run_protected
+            from .interp_base import enumerate_paths
+
+            def run(dec):
+                it = Interp(prog, dec)
+                pr = PathResult()
+
+                def body():
+                    f = Func(fi, fi.node, None, module=fi.module)
+                    w = it.invoke(f, [Unknown("configs")], {}, fi.node)
+                    if n == "0":
+                        nodes = PList([])
+                    elif n == "1":
+                        nodes = PList([_param("nodes[0]")])
+                    else:
+                        nodes = PList([_param("nodes[0]"), _param("nodes[1]"), Rep([_param("nodes[i]")], "nodes[2:]")])
+                    pr.extra["n"] = n
+                    pr.result = it.call(w, [nodes], {}, fi.node, None)
+
+                return run_protected(it, pr, body)
+
+            return [pr for _d, pr in enumerate_paths(run, None, what="get_expr_wrapper")]
+
+        results.extend(run_one())
+    return results
